@@ -484,6 +484,23 @@ def run(ctx):
         "returned, no bad free, writev <= IOV_MAX; then the recorded rounds (writev/deallocate/descriptor-check calls) are replayed "
         "event by event through App.step and must equal the model's flushes. Non-trivial run: >= 2 threads and >= 20 entries.")
     ctx.cov["traces_validated_against_impl"] = ctx.cov["evaluations"]
+    ctx.cov["proof_vs_sampling"] = {
+        "proof (Lean, all inputs)": [
+            "part A: entry_bytes_exact, entry_pages_once, entry_layout_size_only(+_same_length), entry_discard_returns_all, "
+            "entry_nonempty_scatter - for every list of sputn/sputc/sync operations, every byte content, every allocator position and "
+            "every page size with Fits; entry_excluded_page_sizes - the model overruns at ps = 16, 8, 20",
+            "part B: appender_each_once_ordered, appender_no_write_after_close, appender_hist_is_ticket_order - for every event history "
+            "(any threads, any batching n1/n2 <= batch of published prefixes, any descriptors per round) of the ABSTRACT model",
+            "gen_* obligations: constants, statement order, test shapes, queue flag pairing re-extracted from /repo on every run",
+        ],
+        "sampling (real code, this run)": [
+            "part A model<->code: E-SEQ on the op lines generated this run (exhaustive over total lengths for ps 24/32 as single sputn)",
+            "part B model<->code: OS-scheduled multi-threaded runs; per run the oracle on the files read back and the replay of the "
+            "recorded rounds through App.step; the order of write() tickets is reconstructed from the output (per-thread order is "
+            "checked independently by the oracle), so the replay validates batching/chunking/flush/page-return, not queue fairness",
+            "close() on a full queue: one fixed schedule per run",
+        ],
+    }
 
 
 def replay(ctx, path):
